@@ -160,11 +160,33 @@ func c12Strategies(c *Ctx) {
 	const role = "strategy"
 	stratProgram = c.P
 	fns := c12StrategyFns(c)
-	if len(fns) < 5 {
+	nDoc := 0
+	for _, s := range fns {
+		for _, w := range []string{"Hierarchic", "Wildcard", "Exact", "Default"} {
+			if strings.Contains(s.fn.Name(), w) {
+				nDoc++
+				break
+			}
+		}
+	}
+	if nDoc < 5 {
 		c.RoleUnmatched("C12.R11", role, fmt.Sprintf("the three scope strategies and two audience strategies of the root package; found %d", len(fns)))
 	}
 	for _, s := range fns {
 		fn := s.fn
+		// the documentation describes five strategies; another function of the same type (a strategy a
+		// later feature adds) has no documented meaning to be held to
+		documented := false
+		for _, w := range []string{"Hierarchic", "Wildcard", "Exact", "Default"} {
+			if strings.Contains(fn.Name(), w) {
+				documented = true
+			}
+		}
+		if !documented {
+			o := c.OK("C12.R11", role, fn, "comparators:"+fn.Name(), "abstained: not one of the documented strategies (hierarchic, wildcard, exact; default and exact audience matching)")
+			o.Layer = "abstained"
+			continue
+		}
 		// the loop bound is lowered once before giving up: a strategy that parses every entry into a
 		// record first multiplies the paths of the nested loops
 		var ex *Exploration
@@ -549,6 +571,9 @@ func c12Strategies(c *Ctx) {
 				// per entry the path mentions: is every segment known to be "*" (constant position) paired with a
 				// request segment known to be non-empty? The accepted entry is one of them; entries rejected
 				// earlier may have failed exactly this test.
+				if requestSegmented(p, nk) == "none" {
+					continue
+				}
 				entries := map[string]bool{}
 				dirty := map[string]string{}
 				for _, f := range p.Facts {
@@ -680,7 +705,7 @@ func c12Strategies(c *Ctx) {
 					switch {
 					case e.direct:
 						good = true
-					case e.split == nil:
+					case e.split == nil, requestSegmented(p, nk) == "none":
 						good = true // a spelling the rule does not read: not judged
 					default:
 						sep := e.split.Args[1]
@@ -858,6 +883,33 @@ func c12Strategies(c *Ctx) {
 			}
 		}
 	}
+}
+
+// requestSegmented: does a literal of the path segment the request with a
+// function of the Split family ("same": strings.Split; "other": SplitN,
+// SplitAfter, …)? "none": the request is walked in another way (strings.Cut,
+// IndexByte) and the segment rules have nothing to pair an entry's segments with.
+func requestSegmented(p *Path, needleKey string) string {
+	res := "none"
+	for _, f := range p.Facts {
+		for _, t := range []*Term{f.Atom.A, f.Atom.B} {
+			if t == nil {
+				continue
+			}
+			t.Walk(func(x *Term) bool {
+				if len(x.Args) > 0 && x.Args[0].Key() == needleKey {
+					switch {
+					case x.IsCall("strings.Split"):
+						res = "same"
+					case x.IsCall("strings.SplitN", "strings.SplitAfter", "strings.SplitAfterN") && res == "none":
+						res = "other"
+					}
+				}
+				return true
+			})
+		}
+	}
+	return res
 }
 
 func orStr(a, b string) string {
